@@ -150,6 +150,27 @@ theorem normal_end_no_tx (rounds : List (Bool × Bool)) :
     onWatcherDone (some { isClosed := true }) rounds = [] := by
   constructor <;> simp [onWatcherDone]
 
+/-- **a contract closed by somebody else while the controller is retrying is not closed again**: after k failed
+transactions, the pass through the loop that finds the contract available sends nothing and ends the loop,
+whatever would have come next -/
+theorem closed_meanwhile_stops (reason : Nat) (k : Nat) (txOk : Bool) (rest : List (Bool × Bool)) :
+    closeLoop reason (List.replicate k (false, false) ++ (true, txOk) :: rest) =
+      (List.replicate k [Action.closeEarly reason, Action.sleep retryDelay]).flatten := by
+  induction k with
+  | zero => simp [closeLoop]
+  | succ k ih => simp [List.replicate_succ, closeLoop, ih]
+
+/-- the number of transactions is the number of passes up to and including the first success or up to the pass that
+finds the contract closed: never more -/
+theorem tx_count_le_rounds (reason : Nat) (rounds : List (Bool × Bool)) :
+    ((closeLoop reason rounds).filter fun a => match a with | .closeEarly _ => true | _ => false).length ≤ rounds.length := by
+  induction rounds with
+  | nil => simp [closeLoop]
+  | cons r rest ih =>
+    obtain ⟨avail, ok⟩ := r
+    cases avail <;> cases ok <;> simp [closeLoop] <;> omega
+
+
 /-! ### non-vacuity -/
 example : getMaxGlobalError (10 * 60000000000) (5 / 100) (20 * 60000000000) skipPeriod = 4 / 5 := by
   unfold getMaxGlobalError skipPeriod; norm_num
